@@ -35,7 +35,7 @@ def isr_models(names, variant, K, ncls, reqs, sizes, seeds):
         for sd in seeds:
             m = events.model(ctx0, noa=no, nva=nv, seed=sd, fock="diag",
                              bkn=bkn, oracle="isr",
-                             gs=oracle.gs_record(names, K, 2, with_d=False))
+                             gs=oracle.gs_record(names, K, 4, with_d=False))
             m["isr"] = {"variant": variant, "K": K, "ncls": ncls, "req": reqs}
             gm.append(m)
     return gm
